@@ -181,7 +181,24 @@ async def run_mixed(dep, conf, d, events, ports):
     await s.end(events, d)
 
 
-RUNNERS = {"script": run_script, "random": run_random, "evict": run_evict, "mixed": run_mixed}
+async def run_empty(dep, conf, d, events, ports):
+    """A datagram with no payload at all, answered by a datagram with no payload (size class "z" in both directions: the
+    encoders' padding rules apply to exactly this case), then ordinary datagrams of the same and of another application."""
+    s = Scenario(dep, conf, d["seed"], ports)
+    s.w.add_app(1, 0)
+    s.w.add_app(2, 0)
+    s.w.add_target(1, "127.0.0.1")
+    s.w.add_target(2, "127.0.0.2")
+    s.send(1, 1, 0, rep=1, rsize=0)
+    await s.w.drain(0, 2.0)
+    s.send(1, 1, 200, rep=1)
+    s.send(2, 2, 300, rep=1)
+    await s.w.drain(0, 2.0)
+    s.send(2, 1, 1, rep=1, rsize=1)
+    await s.end(events, d)
+
+
+RUNNERS = {"script": run_script, "random": run_random, "evict": run_evict, "mixed": run_mixed, "empty": run_empty}
 
 
 async def execute(conf, descs, tag="c02"):
@@ -226,6 +243,9 @@ def plan(c, tier, scripts, rnd):
             descs.append({"kind": "random", "n": 40 if quick else 120, "napps": rnd.randint(2, 6), "seed": base + 500 + j})
             c.add("random_histories", 1)
         descs.append({"kind": "mixed", "seed": base + 950})
+        for j in range(1 if quick else 4):
+            descs.append({"kind": "empty", "seed": base + 960 + j})
+            c.add("empty_datagram_histories", 1)
         if f not in evict_done or not quick:
             evict_done.add(f)
             descs.append({"kind": "evict", "seed": base + 900})
